@@ -34,6 +34,7 @@ def run(ctx):
     sleeps(ctx, f, cfg)
     flow_decision(ctx, f, cfg)
     hotspot_decision(ctx, f, cfg)
+    schedule_store(ctx, f, cfg)
     g = LockGraph(f)
     g.build()
     bad = [(s, sorted({h["cls"] for h in s["held"]} - {"inst:EntryContext"})) for s in g.sleep_sites]
@@ -329,3 +330,92 @@ def hotspot_decision(ctx, f, cfg):
     ctx.instance("C07.decision/per-value", b.path, "schedule cell keyed by the checked argument: %s" % keyed, "true", keyed, cfg)
     if not keyed:
         ctx.violation("C07.decision", "C07.decision|hotspot|key", "the throttling schedule is not kept per parameter value", b.loc(), config=cfg)
+
+
+def _user_local(b, op, depth=0):
+    """First user-named local reached from the operand through copies / casts."""
+    pl = op_place(op)
+    while pl is not None and depth < 8:
+        if b.vname(pl["l"]) and not pl["p"]:
+            return pl["l"]
+        d = def_of_local(b, pl["l"])
+        if not d or d[0] != "assign":
+            return None
+        rv = d[3]["rv"]
+        if rv["k"] in ("use", "cast") and isinstance(rv.get("op"), dict):
+            pl = op_place(rv["op"])
+        else:
+            return None
+        depth += 1
+    return None
+
+
+def schedule_store(ctx, f, cfg):
+    """C07.schedule-store: what is written back to the schedule.
+    (i) on the immediate-admission branch the schedule is set to *now* (not to a slot in the past);
+    (ii) on the queueing branch the slot recorded is the very slot whose distance to now is handed out as the wait."""
+    for fam, trait in (("flow", "flow::traffic_shaping::Checker"), ("hotspot", "hotspot::traffic_shaping::Checker")):
+        cands = [b for b in f.impl_methods(trait, "do_check") if any(callee_is(t, "TokenResult::new_should_wait") for _, t in b.calls())]
+        if not cands:
+            continue
+        b = cands[0]
+        sl = Slicer(f, b)
+        now_call = "call:curr_time_nanos" if fam == "flow" else "call:curr_time_millis"
+        cell = "field:ThrottlingChecker.last_passed_time" if fam == "flow" else "field:ParamsMetric.rule_time_counter"
+        # (i) compare_exchange new value
+        cas = [(bb, t) for bb, t in b.calls() if atomic_op(t) == "compare_exchange" and any_atom(sl.of_operand(t["args"][0]), cell)]
+        ok1 = bool(cas)
+        form = []
+        for bb, t in cas:
+            a = sl.of_operand(t["args"][2])
+            only_now = any_atom(a, now_call) and not any_atom(a, cell) and "op:Add" not in a and "op:Sub" not in a
+            form.append({"new_value_is_now": only_now})
+            ok1 = ok1 and only_now
+        ctx.instance("C07.schedule-store/admit-now", b.path, form, "immediate admission records the current time", ok1, cfg)
+        if not ok1:
+            ctx.violation("C07.schedule-store", "C07.schedule-store|%s|admit-now" % fam, "%s throttling: an immediately admitted request does not set the schedule to the current time (a slot in the past lets the next request in too early)" % fam, b.loc(), config=cfg)
+        # (ii) queued slot
+        waits = [(bb, t) for bb, t in b.calls() if callee_is(t, "TokenResult::new_should_wait") and const_val(t["args"][0]) != 0]
+        ok2 = bool(waits)
+        detail = []
+        for bb, t in waits:
+            # minuend of the subtraction feeding the wait
+            minuend = None
+            seen = set()
+            work = [t["args"][0]]
+            while work and minuend is None:
+                op = work.pop()
+                pl = op_place(op)
+                if pl is None or pl["l"] in seen:
+                    continue
+                seen.add(pl["l"])
+                for kind, bi, si, node, projs in b.defs().get(pl["l"], []):
+                    if kind == "assign":
+                        rv = node["rv"]
+                        if rv["k"] == "bin" and rv["op"].startswith("Sub"):
+                            minuend = _user_local(b, rv["a"])
+                            break
+                        for key in ("op", "a"):
+                            if key in rv and isinstance(rv[key], dict):
+                                work.append(rv[key])
+                    else:
+                        work.extend(node["args"])
+            recorded = False
+            how = None
+            if minuend is not None:
+                # the schedule write on this path: a store of that local, or the local is itself the result of fetch_add on the cell
+                at_m = sl.of_local(minuend)
+                if fam == "flow":
+                    recorded = any(x.startswith("call:") and x.endswith("fetch_add") for x in at_m) and any_atom(at_m, cell)
+                    how = "slot = fetch_add(interval) + interval"
+                else:
+                    for sb, st in b.calls():
+                        if atomic_op(st) == "store" and any_atom(sl.of_operand(st["args"][0]), cell) and b.dominates(sb, bb) or (atomic_op(st) == "store" and any_atom(sl.of_operand(st["args"][0]), cell) and bb in b.reachable([sb])):
+                            if _user_local(b, st["args"][1]) == minuend:
+                                recorded = True
+                                how = "store(slot)"
+            detail.append({"slot_local": b.vname(minuend) if minuend is not None else None, "recorded": recorded, "how": how})
+            ok2 = ok2 and recorded
+        ctx.instance("C07.schedule-store/queued-slot", b.path, detail, "the slot handed out (now + wait) is the slot recorded in the schedule", ok2, cfg)
+        if not ok2:
+            ctx.violation("C07.schedule-store", "C07.schedule-store|%s|queued-slot" % fam, "%s throttling: the slot recorded for a queued request is not the slot it was told to wait for: later callers are scheduled against a different time (%s)" % (fam, detail), b.loc(), config=cfg)
